@@ -414,7 +414,8 @@ func (self *BinaryConv) handleUnsets(b *thrift.RequiresBitmap, desc *thrift.Stru
 		} else {
 			*out = json.EncodeArrayComma(*out)
 		}
-		*out = json.EncodeString(*out, field.Name())
+		// NOTICE: always use field.Alias() here, like the fields that are present in the message
+		*out = json.EncodeString(*out, field.Alias())
 		*out = json.EncodeObjectColon(*out)
 		return writeDefaultOrEmpty(field, out)
 	})
